@@ -503,3 +503,9 @@ def run(F, rep):
     c12.rule_h1(F, rep, 'C02.H1', [s for s in c12.STATE if s[0] == 'Parser::ParserImpl'])
     import c16
     c16.run(F, core.Borrowed(rep, only={'C16.P1'}))
+
+    # ------------------------------------------------------------------ A: flags gathered over loops
+    from engines import rule_accumulators
+    rule_accumulators(F, rep, 'C02.A1', lambda g: g.file.endswith('/printer.cpp'), 1, 'printer.cpp', 'whether a component pair was already printed must not depend on the last pair compared (a connection would be printed twice or not at all)')
+
+
